@@ -153,6 +153,8 @@ def tie(tier, seed):
     agree = total = skipped = 0
     rot_yes = rot_no = rot_other = early_yes = uni_yes = uni_early_yes = uni_region_entry = 0
     uni_unmet = []
+    wf_yes = wf_no = 0
+    wf_unmet = []
     rot_unmet = []
     mism = []
     shapes = {}
@@ -189,6 +191,16 @@ def tie(tier, seed):
                     rot_no += 1
                     if len(rot_unmet) < 4:
                         rot_unmet.append({"graph": item[1]})
+            if len(x) >= 5:
+                # fifth column: the call is an edit of one level that meets the conditions of the universal
+                # consistency theorem (LevelWf.level_edit_keeps_wf_b) and the hierarchy it speaks about is the one
+                # the implementation produced
+                if x[4] == 1:
+                    wf_yes += 1
+                elif x[3] != 6:
+                    wf_no += 1
+                    if len(wf_unmet) < 4:
+                        wf_unmet.append({"graph": item[1]})
             if x[:3] == [1, 1, 1]:
                 agree += 1
             elif len(mism) < 4:
@@ -200,4 +212,6 @@ def tie(tier, seed):
             "unified_early_returns_meeting_path_theorem_hypotheses": uni_early_yes,
             "calls_with_several_headers_and_a_region_entry_outside_the_theorem": uni_region_entry,
             "calls_with_several_headers_not_meeting_them": rot_other, "several_headers_unmet_examples": uni_unmet,
+            "calls_meeting_consistency_theorem_conditions": wf_yes,
+            "calls_not_meeting_consistency_theorem_conditions": wf_no, "consistency_unmet_examples": wf_unmet,
             "calls_by_shape": shapes, "skipped": skipped, "harness_errors": [repr(e)[:200] for e in errors][:3]}
